@@ -1,8 +1,8 @@
 SPECIFICATION Spec
 CONSTANTS
-  Mode = "pair"
+  Mode = "ds"
   Big = TRUE
-  PairScopes = {"span"}
+  PairScopes = {}
   Faithful = TRUE
 INVARIANTS TypeOK FirstMatch Decision Delegation OwnSampler AbsentNeverMatches SpanImpliesTrace DevOnlyOnAbsent
 ACTION_CONSTRAINT Dump
